@@ -1,13 +1,15 @@
 """C11 -- interstitial derivative outputs are true derivatives (run-time contract, level B)."""
 from vf.common import Report, finish, SEED
 from vf.rtc import runner, catalogue
-from contracts import interstitial_rt as I, vacancy_rt as V
+from contracts import interstitial_rt as I, vacancy_rt as V, interstitial_sx as IS
 
 
 def main(tier):
     rep = Report('C11', tier)
     n = len(catalogue.builders(tier, SEED))
     runner.run(rep, 'Interstitial::contract', I.w_interstitial, [(i, tier, SEED, 'C11') for i in range(n)], 'onsager/OnsagerCalc.py::Interstitial.diffusivity')
+
+    IS.run_all(rep, tier, 'C11:')
 
     from vf import extract
     for rel, q in [('onsager/OnsagerCalc.py', 'Interstitial.diffusivity'), ('onsager/OnsagerCalc.py', 'Interstitial.elastodiffusion'), ('onsager/OnsagerCalc.py', 'Interstitial.siteDipoles'), ('onsager/OnsagerCalc.py', 'Interstitial.jumpDipoles'), ('onsager/OnsagerCalc.py', 'Interstitial.generateSiteSymmTensorBasis'), ('onsager/OnsagerCalc.py', 'Interstitial.generateJumpSymmTensorBasis'), ('onsager/crystal.py', 'ProjectTensorBasis')]:
@@ -19,4 +21,4 @@ def main(tier):
 
 
 def annotate(rep):
-    rep.gaps.append('the planned exact symbolic identity (E4) for the barrier output is not built yet: finite differences only')
+    rep.gaps.append('level S: barrier output == -dD/dbeta as an identity in all prefactors and energies (coefficient tolerance 1e-9) for enumerated networks on the solve branch with at most %d vector-basis functions; elastodiffusion and dipole population are level B (finite differences / group averages)' % IS.MAX_NV)
